@@ -1,0 +1,45 @@
+//go:build verif
+
+// Contracts for the govc verifier (see /verif/DESIGN.md). Comment-only file: with the
+// "verif" build tag off it is not compiled; with it on it contains only the package clause.
+
+package source
+
+// dparse(s): the digest denoted by a well-formed digest string (uninterpreted); labels.Validate accepts exactly the
+// key/value pairs whose total length is at most 4096 bytes (containerd's rule) -- both are ASSUMPTIONS on dependencies.
+//@ uf dparse(string) string
+//@ func github.com/opencontainers/go-digest.Parse
+//@   trusted
+//@   ensures err == nil ==> result0 == dparse(s)
+//@ func github.com/containerd/containerd/v2/pkg/labels.Validate
+//@   trusted
+//@   ensures (result == nil) <==> len(k) + len(v) <= 4096
+
+// the neighbour list is a prefix: an iteration that does not leave the loop has appended its layer's digest
+//@ uf islayer(string) bool
+//@ func github.com/containerd/containerd/v2/core/images.IsLayerType
+//@   trusted
+//@   ensures result == islayer(mt)
+//@ func appendWithValidation
+//@   props C20
+//@   loop 0 invariant[C20] len(v) == 0 || len(key) + len(v) <= 4096
+//@   ensures[C20] len(result) == 0 || len(key) + len(result) <= 4096
+
+// reader side: mandatory labels, target digest, and the URL label consulted for the i-th listed digest is urls.<i>
+//@ func FromDefaultLabels$1
+//@   props C20
+//@   ensures[C20] !(targetRefLabel in labels) ==> err != nil
+//@   ensures[C20] !(targetDigestLabel in labels) ==> err != nil
+//@   ensures[C20] err == nil ==> len(result0) == 1 && result0[0].Target.Digest == dparse(labels[targetDigestLabel])
+//@   assert[C20] after "if urls, ok := labels[targetImageURLsLabelPrefix" : ok ==> urls == labels[targetImageURLsLabelPrefix + sprintf("%d", rangeidx)]
+
+// writer side: the layers label stays within the validated size, URL labels are keyed by the position in that label
+//@ func AppendDefaultLabelsHandlerWrapper$1$1
+//@   props C20
+//@   requires f != nil
+//@   loop 1 invariant[C20] len(layers) == 0 || len(targetImageLayersLabel) + len(layers) <= 4096
+//@   loop 1 step[C20] islayer(l.MediaType) ==> len(layers) > prev(len(layers))
+//@   assert[C20] after "urlsKey := targetImageURLsLabelPrefix" : urlsKey == targetImageURLsLabelPrefix + sprintf("%d", rangeidx)
+//@   assert[C20] after "c.Annotations[urlsKey] = appendWithValidation" : len(c.Annotations[urlsKey]) == 0 || len(urlsKey) + len(c.Annotations[urlsKey]) <= 4096
+//@   assert[C20] after "c.Annotations[targetImageLayersLabel] = strings.TrimSuffix" : len(c.Annotations[targetImageLayersLabel]) == 0 || len(targetImageLayersLabel) + len(c.Annotations[targetImageLayersLabel]) <= 4096
+//@   assert[C20] after "c.Annotations[targetURLsLabel] = appendWithValidation" : len(c.Annotations[targetURLsLabel]) == 0 || len(targetURLsLabel) + len(c.Annotations[targetURLsLabel]) <= 4096
